@@ -115,12 +115,12 @@ func Alternates() map[string][]cty.Value {
 	num := func(n int64) cty.Value { return cty.NumberIntVal(n) }
 	str := cty.StringVal
 	return map[string][]cty.Value{
-		"n1": {num(0), num(2), num(-1), cty.NumberFloatVal(1.5)},
-		"n2": {num(1), num(0), num(3)},
-		"nh": {num(1), num(0), cty.NumberFloatVal(2.5)},
-		"s":  {str("b"), str(""), str("1"), str("true"), str("\u0301!")},
-		"sn": {str("0"), str("2"), str("a"), str("-1"), str("\u0308x")},
-		"b":  {cty.False},
+		"n1":  {num(0), num(2), num(-1), cty.NumberFloatVal(1.5)},
+		"n2":  {num(1), num(0), num(3)},
+		"nh":  {num(1), num(0), cty.NumberFloatVal(2.5)},
+		"s":   {str("b"), str(""), str("1"), str("true"), str("\u0301!")},
+		"sn":  {str("0"), str("2"), str("a"), str("-1"), str("\u0308x")},
+		"b":   {cty.False},
 		"nul": {},
 		"ns":  {str("a"), str("")},
 		"l": {cty.ListVal([]cty.Value{num(2), num(1)}), cty.ListValEmpty(cty.Number), cty.ListVal([]cty.Value{num(0)}),
@@ -212,41 +212,48 @@ func Localise(n *Node, fails func(n *Node, extra map[string]cty.Value) bool,
 				break
 			}
 		}
-		if !descended && (n.K == "for" || n.K == "tfor") && evalIn != nil {
-			var coll cty.Value
-			ok := false
-			func() {
-				defer func() { recover() }()
-				coll, ok = evalIn(n.Sub[0], extra)
-			}()
-			if ok {
+		if !descended && evalIn != nil {
+			for _, b := range binders(n) {
+				var coll cty.Value
+				ok := false
+				func() {
+					defer func() { recover() }()
+					coll, ok = evalIn(b.Sub[0], extra)
+				}()
+				if !ok {
+					continue
+				}
 				coll, _ = coll.Unmark()
-				if coll.IsKnown() && !coll.IsNull() && coll.CanIterateElements() && coll.LengthInt() > 0 {
-					it := coll.ElementIterator()
-					it.Next()
-					k, v := it.Element()
-					ex2 := map[string]cty.Value{}
-					for kk, vv := range extra {
-						ex2[kk] = vv
+				if !(coll.IsKnown() && !coll.IsNull() && coll.CanIterateElements() && coll.LengthInt() > 0) {
+					continue
+				}
+				it := coll.ElementIterator()
+				it.Next()
+				k, v := it.Element()
+				ex2 := map[string]cty.Value{}
+				for kk, vv := range extra {
+					ex2[kk] = vv
+				}
+				ex2[b.S2] = v
+				if b.N%4 != 0 {
+					ex2[KeyVarNames[b.N%4]] = k
+				}
+				var bodies []*Node
+				if b.K == "for" {
+					bodies = b.Sub[1:]
+				} else {
+					bodies = EvaluableChildren(b.Sub[1])
+				}
+				for _, ch := range bodies {
+					if try(ch, ex2) {
+						n = ch
+						extra = ex2
+						descended = true
+						break
 					}
-					ex2[n.S2] = v
-					if n.N%4 != 0 {
-						ex2[KeyVarNames[n.N%4]] = k
-					}
-					var bodies []*Node
-					if n.K == "for" {
-						bodies = n.Sub[1:]
-					} else {
-						bodies = EvaluableChildren(n.Sub[1])
-					}
-					for _, ch := range bodies {
-						if try(ch, ex2) {
-							n = ch
-							extra = ex2
-							descended = true
-							break
-						}
-					}
+				}
+				if descended {
+					break
 				}
 			}
 		}
@@ -254,6 +261,33 @@ func Localise(n *Node, fails func(n *Node, extra map[string]cty.Value) bool,
 			return n, extra
 		}
 	}
+}
+
+// binders lists the for expressions / template for directives whose bodies are not reachable
+// through EvaluableChildren: n itself, or the directives among the parts of a template.
+func binders(n *Node) []*Node {
+	switch n.K {
+	case "for", "tfor":
+		return []*Node{n}
+	case "tpl", "tplbody":
+		var out []*Node
+		for _, p := range n.Sub {
+			switch p.K {
+			case "tfor":
+				out = append(out, p)
+			case "tif":
+				for _, t := range p.Sub[1:] {
+					if t.K != "none" {
+						out = append(out, binders(t)...)
+					}
+				}
+			case "hline":
+				out = append(out, binders(&Node{K: "tpl", Sub: p.Sub})...)
+			}
+		}
+		return out
+	}
+	return nil
 }
 
 // With returns base extended by extra (extra wins).
